@@ -1389,7 +1389,15 @@ func verifC13LogKey(log []verifC13Cmd) []byte {
 
 // verifC13Malformed derives a malformed payload from a valid command.
 func verifC13Malformed(t *rapid.T, valid []byte) ([]byte, string) {
-	switch rapid.IntRange(0, 5).Draw(t, "malformedKind") {
+	switch rapid.IntRange(0, 7).Draw(t, "malformedKind") {
+	case 6, 7:
+		// one payload of the structural neighbourhood (a TLV field at any nesting
+		// depth cut / grown / re-tagged / dropped with the enclosing lengths intact)
+		if variants := verifC13Variants(valid); len(variants) > 0 {
+			v := variants[rapid.IntRange(0, len(variants)-1).Draw(t, "structuredVariant")]
+			return v.data, "structured"
+		}
+		return append([]byte(nil), valid[:len(valid)-1]...), "truncated"
 	case 0:
 		cut := rapid.IntRange(0, len(valid)-1).Draw(t, "cut")
 		return append([]byte(nil), valid[:cut]...), "truncated"
@@ -1436,7 +1444,7 @@ func TestVerifC13Refusal(t *testing.T) {
 				index++
 			}
 		}
-		all := append(append([]uint16(nil), verifC13Owned...), verifC13Unowned)
+		all := append(append([]uint16(nil), verifC13Owned...), verifC13Unowned, verifC13Incoming)
 		before := r.export(rt, all)
 		appliedBefore := r.applied(rt)
 
@@ -1444,7 +1452,34 @@ func TestVerifC13Refusal(t *testing.T) {
 		var bad multiraft.Command
 		var kind string
 		mustFail := true
-		switch rapid.IntRange(0, 3).Draw(rt, "refusalKind") {
+		// envelope: bad is an apply-delta envelope for envelopeHashSlot; whatever it does
+		// it may only touch that hash slot
+		envelope, envelopeHashSlot, envelopeClass, envelopeInside, envelopeOutside := false, uint16(0), "", 0, 0
+		var envelopeBeforeOutside []byte
+		firstClass, firstOutside := "", 0
+		newEnvelope := func(sourceIndex uint64, original []byte, index uint64) multiraft.Command {
+			return multiraft.Command{SlotID: multiraft.SlotID(verifC13Slot), HashSlot: envelopeHashSlot, Index: index, Term: 1,
+				Data: EncodeApplyDeltaCommand(verifC13DeltaSource, sourceIndex, envelopeHashSlot, original)}
+		}
+		switch rapid.IntRange(0, 4).Draw(rt, "refusalKind") {
+		case 4:
+			// target side of a hash-slot migration: the source forwards a committed
+			// command for the migrating hash slot h as ApplyDelta(h, original). The
+			// original may be a multi-hash-slot batch whose other items belong to hash
+			// slots that stayed on the source (or went elsewhere): the envelope covers h
+			// only (applyDeltaCmd.apply -> hashSlotFilteredCommand.applyForHashSlot), so
+			// it is either refused without side effects or changes nothing outside h.
+			kind = "apply-delta envelope"
+			envelope, mustFail = true, false
+			envelopeHashSlot = rapid.SampledFrom([]uint16{verifC13Incoming, verifC13Incoming, verifC13Owned[0], verifC13Owned[1]}).Draw(rt, "deltaHashSlot")
+			if rapid.IntRange(0, 3).Draw(rt, "incomingMarker") > 0 {
+				r.sm.UpdateIncomingDeltaHashSlots([]uint16{verifC13Incoming})
+			}
+			var original []byte
+			original, envelopeClass, envelopeInside, envelopeOutside = verifC13DeltaOriginal(rt, envelopeHashSlot, true)
+			firstClass, firstOutside = envelopeClass, envelopeOutside
+			bad = newEnvelope(uint64(rapid.IntRange(1, 50).Draw(rt, "sourceIndex")), original, index+1)
+			envelopeBeforeOutside = r.export(rt, verifC13Except(all, envelopeHashSlot))
 		case 0:
 			kind = "unowned hash slot"
 			bad = verifC13Command(victim, index+1)
@@ -1522,6 +1557,38 @@ func TestVerifC13Refusal(t *testing.T) {
 				rt.Fatalf("refused command (%s) moved DurableAppliedIndex %d -> %d", kind, appliedBefore, got)
 			}
 		}
+		envelopeChanged, envelopeInBatch := false, false
+		if envelope && err == nil {
+			outside := verifC13Except(all, envelopeHashSlot)
+			judge := func(what string, was []byte) {
+				if d := verifC13Diff(was, r.export(rt, outside)); d != "" {
+					rt.Fatalf("%s for hash slot %d around %s (%d items inside, %d outside the delta) wrote outside that hash slot (owned %v, incoming %d, foreign %d): %s",
+						what, envelopeHashSlot, envelopeClass, envelopeInside, envelopeOutside, verifC13Owned, verifC13Incoming, verifC13Unowned, d)
+				}
+			}
+			judge("an accepted apply-delta envelope", envelopeBeforeOutside)
+			after := r.export(rt, all)
+			envelopeChanged = !bytes.Equal(before, after)
+			// two more envelopes (fresh source indexes) share one batch with noops
+			noop := func(i uint64) multiraft.Command {
+				return verifC13Command(verifC13Cmd{hashSlot: verifC13Owned[0], data: EncodeNoopCommand()}, i)
+			}
+			o2, c2, in2, out2 := verifC13DeltaOriginal(rt, envelopeHashSlot, true)
+			o3, c3, in3, out3 := verifC13DeltaOriginal(rt, envelopeHashSlot, true)
+			envelopeClass, envelopeInside, envelopeOutside = c2+" and "+c3, in2+in3, out2+out3
+			appliedNow := r.applied(rt)
+			if _, batchErr := apply([]multiraft.Command{noop(index + 2), newEnvelope(101, o2, index+3), newEnvelope(102, o3, index+4), noop(index + 5)}); batchErr != nil {
+				if d := verifC13Diff(after, r.export(rt, all)); d != "" {
+					rt.Fatalf("refused batch of apply-delta envelopes (%s: %v) had side effects: %s", envelopeClass, batchErr, d)
+				}
+				if got := r.applied(rt); got != appliedNow {
+					rt.Fatalf("refused batch of apply-delta envelopes moved DurableAppliedIndex %d -> %d", appliedNow, got)
+				}
+			} else {
+				judge("an accepted batch of apply-delta envelopes", envelopeBeforeOutside)
+				envelopeInBatch = true
+			}
+		}
 		inBatch := false
 		if err != nil {
 			// inside a batch of valid commands: the whole batch is refused, nothing is applied
@@ -1555,12 +1622,21 @@ func TestVerifC13Refusal(t *testing.T) {
 		}
 		r.close(rt)
 		k.Key(kind, bad.HashSlot, bad.Data, len(prefix))
-		k.SetNonTrivial(err != nil && inBatch && index > 0)
+		k.SetNonTrivial(index > 0 && ((err != nil && inBatch) || (envelope && err == nil && envelopeChanged && firstOutside > 0 && envelopeInBatch)))
 		k.Label("refusal: " + strings.SplitN(kind, ":", 2)[0])
-		k.LabelIf(err == nil, "refusal: malformed candidate was still a valid command")
+		k.LabelIf(err == nil && !envelope, "refusal: malformed candidate was still a valid command")
+		if envelope {
+			k.Label("apply-delta envelope around " + firstClass)
+			k.LabelIf(err != nil, "apply-delta envelope refused (no side effects)")
+			k.LabelIf(err == nil && firstOutside > 0, "apply-delta envelope accepted with items outside the delta hash slot")
+			k.LabelIf(err == nil && firstOutside > 0 && envelopeChanged, "apply-delta envelope accepted with outside items and changed its own hash slot")
+			k.LabelIf(envelopeInBatch, "apply-delta envelopes accepted inside one batch")
+			k.LabelIf(envelopeHashSlot == verifC13Incoming, "apply-delta envelope for the incoming hash slot")
+		}
 		k.LabelIf(index > 0, "refusal on a non-empty state")
 		k.Sample(func() any { return fmt.Sprintf("%s on a state of %d applied commands -> %v", kind, index, err) })
 	})
+	kit.For(t, "C13").AddExtra("excluded_by_known_finding", verifC13Excluded.Swap(0))
 }
 
 // FuzzVerifC13ApplyMalformed: arbitrary payloads through ApplyBatch on a real
@@ -1570,6 +1646,17 @@ func FuzzVerifC13ApplyMalformed(f *testing.F) {
 		f.Add(verifC13CmdGen().Example(i).data, uint16(3))
 	}
 	f.Add([]byte{1, 19}, uint16(9))
+	// structure-aware seeds: nested records cut inside / right after their opaque prefix
+	for _, class := range []string{"createRuntimeMetaBatch", "upsertLatestBatch", "admitPersonDirectory", "ensurePersonMemberships", "completePersonDirectory", "upsertMemberships", "appendEventsBatch"} {
+		class := class
+		valid := rapid.Custom(func(t *rapid.T) verifC13Cmd { return verifC13CmdOf(t, class, verifC13Key{}) }).Example(1).data
+		for _, v := range verifC13Variants(valid) {
+			if v.cutToShort {
+				f.Add(v.data, uint16(3))
+				f.Add(EncodeApplyDeltaCommand(verifC13DeltaSource, 1, 11, v.data), uint16(11))
+			}
+		}
+	}
 	dir := f.TempDir()
 	db, err := metadb.Open(filepath.Join(dir, "db"))
 	if err != nil {
